@@ -237,11 +237,14 @@ func H_C15_sorted_map_ready_and_forward() {
 // transaction out and offering later ones of the same sender would put a nonce gap into the block.
 // Real code: Reap / collectTxs over a clist of four executables of one sender (nonces 0..3), each an
 // ordinary or an account-input UTXO-type transaction, with arbitrary block size and UTXO quota.
-//verif:opt unwind=16 budget_s=600 split=8
+//verif:opt unwind=16 budget_s=600 thorough.budget_s=2400 split=8 thorough.split=16
 func H_C15_reap_offers_a_prefix_of_the_executables() {
 	app := &c15App{committed: map[common.Address]uint64{}, spec: map[common.Address]uint64{}}
 	mem := c15Pool(app, 8)
-	const n = 4
+	n := 4
+	if verifThorough() {
+		n = 6
+	}
 	var all []*c15Tx
 	for i := 0; i < n; i++ {
 		tx := &c15Tx{from: c15A, nonce: uint64(i), id: byte(i), utxo: verifNondetBool()}
